@@ -482,7 +482,62 @@ def check_lift(case):
     return R(out, nt=[key] if nt else None, labels=labels, n=1 + (1 if npad and len(args) < 32 else 0))
 
 
+NEST_INNER = ['ISNUMBER', 'ISTEXT', 'ISERROR', 'ISNA', 'ISLOGICAL', 'ISNONTEXT', 'ISERR']
+NEST_OUTER = ['NOT(%s)', '-%s', '--%s', '%s+{1;2}', '{1;2}+%s', '%s*{2,3}', 'IF(%s,"y","n")', '%s&"x"', '%s=TRUE', 'CONCATENATE(%s,"a")', '+%s',
+              'IF({1,0},%s,"no")', 'AND(TRUE,TRUE)&%s']
+NEST_ARRAYS = [[[1.0, 'a']], [[1.0], ['a'], [True]], [[1.0, 'a'], [Err('#N/A'), True]], [[Err('#DIV/0!'), 2.0, 'x']], 5.0]
+
+
+def enum_nest():
+    for inner in NEST_INNER:
+        for oi, outer in enumerate(NEST_OUTER):
+            for ai, arr in enumerate(NEST_ARRAYS):
+                oshape = {'%s+{1;2}': (2, 1), '{1;2}+%s': (2, 1), '%s*{2,3}': (1, 2), 'IF({1,0},%s,"no")': (1, 2)}.get(outer, (1, 1))
+                ashape = L.shape(arr) if isinstance(arr, list) else (1, 1)
+                if not all(a == b or a == 1 or b == 1 for a, b in zip(ashape, oshape)):
+                    continue  # shapes that do not broadcast are outside the asserted domain
+                for mode in ('lit', 'rng'):
+                    for dest in ((3, 3), (4, 2), (2, 4), (1, 1), None):
+                        if (oi + ai + len(inner) + (dest or (0, 0))[0]) % 3 and dest not in ((3, 3), None):
+                            continue  # thin out: the (3,3) and the identity destination for every combination
+                        yield {'k': 'nest', 'inner': inner, 'outer': outer, 'v': enc(arr), 'm': mode, 'dest': list(dest) if dest else None}
+
+
+def check_nest(case):
+    """outer(inner(X)) into a destination == outer(<literal of inner(X)'s own result>) into the same destination: an
+    intermediate array result is an ordinary array value (added after seed c05-b-r3)."""
+    v, mode = dec(case['v']), case['m']
+    inner_text, inputs = build(case['inner'], [v], [mode])
+    ishape = L.shape(v) if isinstance(v, list) else (1, 1)
+    iv = run_cell(dest_ref(ishape), inner_text, inputs)
+    if iv is None or any(not isinstance(x, bool) for row in iv for x in row):
+        return R([('nest|inner-not-logical|%s' % case['inner'], '%s gives %r' % (inner_text, iv))], nt=True)
+    nested = '=' + case['outer'] % inner_text[1:]
+    flat = '=' + case['outer'] % lit(iv if ishape != (1, 1) else iv[0][0])
+    # shape of the whole result: from the identity run of the literal form
+    probe = run_cell(dest_ref((4, 4)), flat, {})
+    dshape = tuple(case['dest']) if case.get('dest') else None
+    if dshape is None:
+        # the smallest destination the result fills: rows/cols of the probe that are not all #N/A
+        rows = max([i + 1 for i, row in enumerate(probe or []) if any(x != X.NA for x in row)] or [1])
+        cols = max([j + 1 for row in (probe or []) for j, x in enumerate(row) if x != X.NA] or [1])
+        dshape = (rows, cols)
+    d = dest_ref(dshape)
+    exp = run_cell(d, flat, {})
+    got = run_cell(d, nested, inputs)
+    fails = []
+    if exp is None or got is None or L.same_matrix(got, exp) is not None:
+        pos = None if (got is None or exp is None) else L.same_matrix(got, exp)
+        cls = 'no-output' if got is None else ('shape' if pos == 'shape' or pos is None else X.cls(got[pos[0]][pos[1]]))
+        fails.append(('nest|%s|%s|%s' % (case['outer'].replace('%s', 'X'), 'unreached' if (pos not in (None, 'shape') and exp[pos[0]][pos[1]] == X.NA) else 'reached', cls),
+                      '%s into %s: got %r, but %s gives %r' % (nested, d, got, flat, exp)))
+    return R(fails, nt=True, n=3, labels=['part:nest', 'nest-outer:' + case['outer'].replace('%s', 'X'), 'nest-inner:' + case['inner'], 'mode:' + mode,
+                                           'nest-dest:' + ('identity' if not case.get('dest') else 'given')])
+
+
 def check_case(case):
+    if case['k'] == 'nest':
+        return check_nest(case)
     if case['k'] == 'fit':
         return check_fit(case)
     if case['k'] == 'lift':
@@ -718,6 +773,23 @@ def enum_many(tier, seed):
                         yield mk_lift(f, vals, modes, None)
 
 
+def enum_many_kinds():
+    """One non-scalar argument whose elements are equal as Python values but of different Excel kinds (1 / TRUE, 0 / FALSE,
+    "1" / 1), all other arguments scalar: every position must still be evaluated on its own (added after seed c05-a-r3)."""
+    kinds = [[[1.0, True, 0.0, False]], [[True], [1.0], [False], [0.0]], [[1.0, True], [False, 0.0]], [[0.0, False, 1.0, True, '1']]]
+    for total in (8, 31, 32, 33, 40):
+        for arr in kinds:
+            for mode in ('lit', 'rng'):
+                for f, core in (('CONCATENATE', [arr, '-']), ('SWITCH', [arr, 1.0, 'one', True, 'true', 0.0, 'zero', 'other']),
+                                ('IFS', [True, arr]), ('IFS', [arr, 'first', True, 'else'])):
+                    step = 1 if f == 'CONCATENATE' else 2
+                    npad = max(0, total - len(core))
+                    if step == 2:
+                        npad = npad // 2 * 2
+                    modes = [mode if isinstance(v, list) else 'lit' for v in core]
+                    yield mk_lift(f, core, modes, None, npad=npad, padpos='back', padmode='lit')
+
+
 # --- Hypothesis: random function / shapes / values / modes / destination -------
 def _rand(tier):
     names = sorted(FUNCS) + BIN + UN
@@ -781,5 +853,7 @@ def _parts(tier, seed, q):
         ('enum', 'operators', enum_ops(tier, seed), 60, False),
         ('enum', 'functions', enum_funcs(tier, seed), 60, False),
         ('enum', 'many', enum_many(tier, seed), 20, False),
+        ('enum', 'many-kinds', enum_many_kinds(), 20, False),
+        ('enum', 'nested', enum_nest(), 40, False),
         ('hyp', 'rand', 800 if q else 40000),
     ]
